@@ -91,7 +91,7 @@ pub fn pool_od(w: &World, seed: u64) -> Vec<i64> {
 
 pub fn pool_ym(seed: u64) -> Vec<i32> {
     let mut v = vec![0];
-    for p in [1, 2, 11, 12, 13, 23, 24, 25, 100, 119, 120, 1200, 12 * 9998, 12 * 9999, 1_000_000, (1 << 24) - 1, 1 << 24, (1 << 24) + 1, 1_068_000_000, YM_LIMIT - 12, YM_LIMIT - 1, YM_LIMIT] {
+    for p in [1, 2, 3, 7, 11, 12, 13, 23, 24, 25, 100, 119, 120, 1200, 12 * 9998, 12 * 9999, 1_000_000, (1 << 24) - 1, 1 << 24, (1 << 24) + 1, 1_068_000_000, YM_LIMIT - 12, YM_LIMIT - 1, YM_LIMIT] {
         v.push(p);
         v.push(-p);
     }
